@@ -220,6 +220,27 @@ def arena(ctx, fx, files, allowed_fns=(), rule="R-ARENA"):
                     if pty and len(st[1]) > 1:
                         hit = ("drop of %s" % _pname(st[1]), pty, st[4])
 
+                if hit is None and st[0] == "call":
+                    # emptying / shrinking a container of arenas drops the arenas it held
+                    c = st[1]
+                    lastc = c["f"].rsplit("::", 1)[-1]
+                    if lastc in ("clear", "truncate", "pop", "remove", "swap_remove", "drain", "retain", "split_off") \
+                            and ("Vec" in c["f"] or "VecDeque" in c["f"]) and c["a"]:
+                        from rules.sync import recv_field
+                        fld = recv_field(fn, c["a"][0])
+                        if fld and "::" in fld:
+                            adt, fname = fld.rstrip("[]").rsplit("::", 1)
+                            a = fx.adts.get(adt)
+                            fty = None
+                            if a:
+                                for v in a["variants"]:
+                                    for ff in v["fields"]:
+                                        if ff[0] == fname:
+                                            fty = ff[1]
+                            if fty:
+                                for aid in ats:
+                                    if re.search(r"(^|[<( ,])%s([>), ]|$)" % re.escape(aid), fty):
+                                        hit = ("%s() on %s" % (lastc, fname), aid, c["ln"])
                 if hit is None:
                     continue
                 what, aty, line = hit
